@@ -102,7 +102,7 @@ Proof.
   unfold split_rectangles_greedy in G. unfold split_rectangles_ok in K.
   destruct (phase1 (Phase1.phase1_fuel (refinable d)) (refinable d) r n) as [p1| |]; try discriminate.
   destruct (Z.to_nat n <=? List.length p1)%nat eqn:L.
-  - injection G as <-. cbn [spec ground repartition]. rewrite !(proj2 (rects_eqb_eq _ _) eq_refl). reflexivity.
+  - injection G as <-. cbn [spec ground repartition]. rewrite !perm_rects_refl. reflexivity.
   - unfold refinable at 1. cbn [spec ground repartition].
     rewrite (phase2_ok_perm p1 _ out r (Z.to_nat n) (filter_partition_perm is_ground out)). exact K.
 Qed.
